@@ -352,7 +352,7 @@ pub fn run(ctx: &mut Ctx) {
                 ctx.random(&G2, &[idx(k, 10), idx(v, 64)], ctx.t(40, 2_000), 900);
             }
         } else {
-            ctx.random(&G2, &[idx(k, 10)], ctx.t(2_500, 100_000), 900);
+            ctx.random(&G2, &[idx(k, 10)], ctx.t(6_000, 100_000), 900);
         }
         if ctx.too_many() {
             return;
